@@ -31,8 +31,11 @@ type Scenario struct {
 	// QuickEnv/ThoroughEnv > 0: injected faults (non-default environment answers) get a budget of
 	// their own instead of sharing the deviation bound with preemptions.
 	QuickEnv, ThoroughEnv int
-	MaxSteps              int
-	NoCache               bool
+	// QuickIO/ThoroughIO > 0: that many switches away from a thread parked at an I/O point (vsched
+	// Op.IO) are allowed on top of the preemption bound.
+	QuickIO, ThoroughIO int
+	MaxSteps            int
+	NoCache             bool
 	// Share of the check's time budget (relative weight, default 1).
 	Weight float64
 }
@@ -43,6 +46,7 @@ type Case struct {
 	Choices  []int  `json:"choices"`
 	Bound    int    `json:"bound"`
 	EnvBound int    `json:"env_bound,omitempty"`
+	IOBound  int    `json:"io_bound,omitempty"`
 }
 
 func traceSig(x *vsched.Exec, outcome string) string {
@@ -79,7 +83,7 @@ func run(t *testing.T, c *vlib.Ctx, scenarios []Scenario) {
 			if sc.Name != cs.Scenario {
 				continue
 			}
-			e := &vsched.Explorer{New: sc.New, Bound: cs.Bound, EnvBound: cs.EnvBound, NoCache: true, MaxSteps: sc.MaxSteps}
+			e := &vsched.Explorer{New: sc.New, Bound: cs.Bound, EnvBound: cs.EnvBound, IOBound: cs.IOBound, NoCache: true, MaxSteps: sc.MaxSteps}
 			x, h := e.RunOne(cs.Choices, true)
 			outcome, class, desc := judgeAll(sc, h, x)
 			for _, l := range x.Trace {
@@ -127,6 +131,13 @@ func run(t *testing.T, c *vlib.Ctx, scenarios []Scenario) {
 func envNote(n int) string {
 	if n > 0 {
 		return fmt.Sprintf(" (+%d injected faults)", n)
+	}
+	return ""
+}
+
+func ioNote(n int) string {
+	if n > 0 {
+		return fmt.Sprintf(" (+%d switches at I/O calls)", n)
 	}
 	return ""
 }
@@ -181,9 +192,9 @@ func runScenario(c *vlib.Ctx, sc *Scenario, idx int, deadline time.Time) string 
 			}
 		}
 	}
-	maxBound, envBound := sc.QuickBound, sc.QuickEnv
+	maxBound, envBound, ioBound := sc.QuickBound, sc.QuickEnv, sc.QuickIO
 	if c.Thorough() {
-		maxBound, envBound = sc.ThoroughBound, sc.ThoroughEnv
+		maxBound, envBound, ioBound = sc.ThoroughBound, sc.ThoroughEnv, sc.ThoroughIO
 	}
 	if v := os.Getenv("VERIF_BOUND"); v != "" { // debugging aid: explore one scenario deeper
 		fmt.Sscan(v, &maxBound)
@@ -201,7 +212,7 @@ func runScenario(c *vlib.Ctx, sc *Scenario, idx int, deadline time.Time) string 
 			}
 			shard, nshards = 0, 1
 		}
-		e := &vsched.Explorer{New: sc.New, Bound: b, EnvBound: envBound, NoCache: sc.NoCache || os.Getenv("VERIF_NOCACHE") != "", MaxSteps: sc.MaxSteps,
+		e := &vsched.Explorer{New: sc.New, Bound: b, EnvBound: envBound, IOBound: ioBound, NoCache: sc.NoCache || os.Getenv("VERIF_NOCACHE") != "", MaxSteps: sc.MaxSteps,
 			Deadline: deadline, Shard: shard, NShards: nshards}
 		e.Check = func(h vsched.Harness, x *vsched.Exec) {
 			c.Eval(1)
@@ -233,9 +244,9 @@ func runScenario(c *vlib.Ctx, sc *Scenario, idx int, deadline time.Time) string 
 				if nViol > 3 {
 					return
 				}
-				cs := Case{Scenario: sc.Name, Choices: x.Choices, Bound: b, EnvBound: envBound}
+				cs := Case{Scenario: sc.Name, Choices: x.Choices, Bound: b, EnvBound: envBound, IOBound: ioBound}
 				// re-execute before believing it
-				re := &vsched.Explorer{New: sc.New, Bound: b, EnvBound: envBound, NoCache: true, MaxSteps: sc.MaxSteps}
+				re := &vsched.Explorer{New: sc.New, Bound: b, EnvBound: envBound, IOBound: ioBound, NoCache: true, MaxSteps: sc.MaxSteps}
 				for k := 0; k < 3; k++ {
 					x2, h2 := re.RunOne(x.Choices, false)
 					_, class2, _ := judgeAll(sc, h2, x2)
@@ -254,7 +265,7 @@ func runScenario(c *vlib.Ctx, sc *Scenario, idx int, deadline time.Time) string 
 		for k, v := range outcomes {
 			c.OutcomeN(sc.Name+": "+k, v)
 		}
-		r := fmt.Sprintf("bound %d"+envNote(envBound)+": %d executions, %d steps, %d distinct outcomes, cache %d states/%d hits", b, e.Execs, e.StepsTotal, len(outcomes), e.CacheSize, e.CacheHits)
+		r := fmt.Sprintf("bound %d"+envNote(envBound)+ioNote(ioBound)+": %d executions, %d steps, %d distinct outcomes, cache %d states/%d hits", b, e.Execs, e.StepsTotal, len(outcomes), e.CacheSize, e.CacheHits)
 		if e.Capped != "" {
 			r += " (CAPPED: " + e.Capped + ")"
 			res = append(res, r)
